@@ -166,7 +166,9 @@ func NewRouterInfo(
 
 // createPublishedDate converts a time.Time to an I2P Date structure.
 func createPublishedDate(publishedTime time.Time) (*data.Date, error) {
-	millis := publishedTime.UnixNano() / int64(time.Millisecond)
+	// UnixMilli is exact over the whole int64 millisecond range; UnixNano is
+	// undefined for dates after 2262-04-11 and produced a wrapped published date.
+	millis := publishedTime.UnixMilli()
 	dateBytes := make([]byte, data.DATE_SIZE)
 	binary.BigEndian.PutUint64(dateBytes, uint64(millis))
 	publishedDate, _, err := data.ReadDate(dateBytes)
